@@ -166,9 +166,46 @@ func (g *gen) sSelfTail(fc *fctx) []Stmt {
 	return []Stmt{&Do{Body: out}}
 }
 
+// sHighRegister: the only captured locals of a function live in high registers (behind 58-180 other locals); the
+// function leaves by a plain return, and its closures are used after other calls have reused the registers.
+func (g *gen) sHighRegister(fc *fctx) []Stmt {
+	g.use("capture_in_high_register")
+	g.cost(40)
+	pad := []int{58, 62, 63, 64, 70, 120, 180}[g.ch(7)]
+	var pads []string
+	for i := 0; i < pad; i++ {
+		pads = append(pads, g.fresh("hp"))
+	}
+	mk, v, w, f, f1, f2, a, b, c := g.fresh("mk"), g.fresh("hv"), g.fresh("hw"), g.fresh("hf"), g.fresh("f"), g.fresh("f"), g.fresh("ra"), g.fresh("rb"), g.fresh("rc")
+	g.prog.NFuncs++
+	clDef := &FuncDef{ID: g.prog.NFuncs, Body: []Stmt{
+		&Assign{Targets: []Expr{Var{v}}, Exprs: []Expr{Bin{"+", Var{v}, Var{w}}}}, &Return{Exprs: []Expr{Var{v}}}}}
+	g.prog.NFuncs++
+	mkDef := &FuncDef{ID: g.prog.NFuncs, Params: []string{"hx"}, Body: []Stmt{
+		&Local{Names: pads, Exprs: []Expr{Num{0}}},
+		&Local{Names: []string{v, w}, Exprs: []Expr{Var{"hx"}, Num{float64(1 + g.ch(3))}}},
+		&Local{Names: []string{f}, Exprs: []Expr{Func{clDef}}},
+		&Return{Exprs: []Expr{Var{f}}}}}
+	out := []Stmt{
+		&Local{Names: []string{mk}, Exprs: []Expr{Func{mkDef}}},
+		&Call{Names: []string{f1}, Fn: Var{mk}, Args: []Expr{Num{40}}},
+		&Call{Names: []string{f2}, Fn: Var{mk}, Args: []Expr{Num{500}}},
+	}
+	if g.feat("clobber") {
+		out = append(out, g.sClobber(fc)...)
+	}
+	out = append(out,
+		&Call{Names: []string{a}, Fn: Var{f1}}, &Call{Names: []string{b}, Fn: Var{f1}}, &Call{Names: []string{c}, Fn: Var{f2}},
+		&Call{Fn: Var{"emit"}, Args: []Expr{Str{"hr"}, Var{a}, Var{b}, Var{c}}})
+	return []Stmt{&Do{Body: out}}
+}
+
 func (g *gen) sFunc(fc *fctx) []Stmt {
 	if g.feat("tailcall") && g.feat("closure") && g.ch(10) == 0 {
 		return g.sSelfTail(fc)
+	}
+	if g.feat("closure") && g.ch(12) == 0 {
+		return g.sHighRegister(fc)
 	}
 	g.use("closure")
 	if g.feat("factory") && g.ch(3) == 0 && fc.level < 2 {
@@ -764,6 +801,30 @@ func (g *gen) sFenv(fc *fctx) []Stmt {
 		&Call{Names: []string{ir2}, Fn: Var{inner}},
 		&Call{Fn: Var{"emit"}, Args: []Expr{Str{fe}, Var{r}, Var{ir2}, Index{Var{env}, Str{gv}}, Var{gv}}},
 	)
+	if g.ch(3) == 0 {
+		// setfenv(2, env) from a helper changes the environment of the helper's caller; when the helper was reached
+		// by a tail call from an intermediate function, its caller is the function that called the intermediate one
+		g.use("fenv_level2")
+		env2, helper, mid, tf, hr, mr, tr, gl := g.fresh("env"), g.fresh("fh"), g.fresh("fm"), g.fresh("ft"), g.fresh("hr"), g.fresh("mr"), g.fresh("tr"), g.fresh("gl")
+		nf := func(body ...Stmt) Func {
+			g.prog.NFuncs++
+			return Func{&FuncDef{ID: g.prog.NFuncs, Body: body}}
+		}
+		var midBody []Stmt
+		if g.ch(2) == 0 {
+			g.use("fenv_level2_through_tail_call")
+			midBody = []Stmt{&ReturnCall{Fn: Var{helper}}}
+		} else {
+			midBody = []Stmt{&Call{Names: []string{mr}, Fn: Var{helper}}, &Return{Exprs: []Expr{Var{gv}}}}
+		}
+		out = append(out,
+			&Local{Names: []string{env2}, Exprs: []Expr{TableCons{Keys: []string{gv}, Vals: []Expr{Num{float64(20 + g.ch(9))}}}}},
+			&Local{Names: []string{helper}, Exprs: []Expr{nf(&Call{Fn: Var{"setfenv"}, Args: []Expr{Num{2}, Var{env2}}}, &Return{Exprs: []Expr{Num{1}}})}},
+			&Local{Names: []string{mid}, Exprs: []Expr{nf(midBody...)}},
+			&Local{Names: []string{tf}, Exprs: []Expr{nf(&Call{Names: []string{hr}, Fn: Var{mid}}, &Return{Exprs: []Expr{Var{hr}, Var{gv}}})}},
+			&Call{Names: []string{tr, gl}, Fn: Var{tf}},
+			&Call{Fn: Var{"emit"}, Args: []Expr{Str{tf}, Var{tr}, Var{gl}, Var{gv}}})
+	}
 	return out
 }
 
@@ -1326,8 +1387,8 @@ func Generate(t Tape, p *Profile) *Program {
 func (g *gen) sRepetition(fc *fctx) []Stmt {
 	n := []int{33, 70, 130, 260, 520}[g.t.Choose(5)]
 	N := Num{float64(n)}
-	kind := g.t.Choose(5)
-	g.use([]string{"repeat_closures", "repeat_failed_pcalls", "repeat_coroutines", "repeat_live_coroutines", "repeat_recursion_with_captures"}[kind])
+	kind := g.t.Choose(6)
+	g.use([]string{"repeat_closures", "repeat_failed_pcalls", "repeat_coroutines", "repeat_live_coroutines", "repeat_recursion_with_captures", "repeat_resume_chain"}[kind])
 	nf := func(params []string, body ...Stmt) Func {
 		g.prog.NFuncs++
 		return Func{&FuncDef{ID: g.prog.NFuncs, Params: params, Body: body}}
@@ -1352,6 +1413,9 @@ func (g *gen) sRepetition(fc *fctx) []Stmt {
 			&Call{Fn: Var{"emit"}, Args: []Expr{Str{"rep"}, Var{s}, Var{a}, Var{b}}},
 		}
 	case 1:
+		if n == 520 && g.t.Choose(2) == 0 {
+			N = Num{900} // 450 contained errors on one state
+		}
 		c, k, bd, p, x, gf, r, ok, e := g.fresh("c"), g.fresh("k"), g.fresh("bd"), g.fresh("p"), g.fresh("x"), g.fresh("g"), g.fresh("r"), g.fresh("ok"), g.fresh("e")
 		out = []Stmt{
 			&Local{Names: []string{c, k}, Exprs: []Expr{Num{0}, Num{0}}},
@@ -1359,7 +1423,7 @@ func (g *gen) sRepetition(fc *fctx) []Stmt {
 				&Local{Names: []string{x}, Exprs: []Expr{Var{p}}},
 				&Local{Names: []string{gf}, Exprs: []Expr{nf(nil, &Assign{Targets: []Expr{Var{x}}, Exprs: []Expr{Bin{"+", Var{x}, Num{1}}}}, &Return{Exprs: []Expr{Var{x}}})}},
 				&Assign{Targets: []Expr{Var{k}}, Exprs: []Expr{Bin{"+", Var{k}, Num{1}}}},
-				&If{Conds: []Expr{Bin{">=", Var{k}, Num{3}}}, Blocks: [][]Stmt{{
+				&If{Conds: []Expr{Bin{">=", Var{k}, Num{2}}}, Blocks: [][]Stmt{{
 					&Assign{Targets: []Expr{Var{k}}, Exprs: []Expr{Num{0}}},
 					&Call{Fn: Var{"error"}, Args: []Expr{Var{p}}}}}},
 				&Call{Names: []string{r}, Fn: Var{gf}},
@@ -1409,6 +1473,30 @@ func (g *gen) sRepetition(fc *fctx) []Stmt {
 				&Assign{Targets: []Expr{Var{s}}, Exprs: []Expr{Bin{"+", Var{s}, Var{v}}}}}},
 			&Call{Names: []string{st}, Fn: Var{"costatus"}, Args: []Expr{Index{Var{cos}, Num{1}}}},
 			&Call{Fn: Var{"emit"}, Args: []Expr{Str{"rep"}, Var{s}, Var{st}}},
+		}
+	case 5:
+		// coroutines nested by resume: each body resumes the next; the innermost asks for the status of the
+		// outermost ("normal", however long the chain) and tries to resume it (refused)
+		depth := []int{5, 40, 99, 100, 101, 102, 130}[g.t.Choose(7)]
+		first, nest, d, co, bf, st, ok, e, r, ok2, v := g.fresh("first"), g.fresh("nest"), g.fresh("d"), g.fresh("co"), g.fresh("bf"), g.fresh("st"), g.fresh("ok"), g.fresh("e"), g.fresh("r"), g.fresh("ok"), g.fresh("v")
+		inner := nf(nil,
+			&If{Conds: []Expr{Bin{"<=", Var{d}, Num{0}}}, Blocks: [][]Stmt{{
+				&Call{Names: []string{st}, Fn: Var{"costatus"}, Args: []Expr{Var{first}}},
+				&Call{Names: []string{ok, e}, Fn: Var{"pcall"}, Args: []Expr{Var{"coresume"}, Var{first}, Num{1}}},
+				&Call{Fn: Var{"emit"}, Args: []Expr{Str{"chain"}, Var{st}, Bin{"and", Var{ok}, Var{e}}}},
+				&Return{Exprs: []Expr{Num{0}}}}}},
+			&Call{Names: []string{r}, Fn: Var{nest}, Args: []Expr{Bin{"-", Var{d}, Num{1}}}},
+			&Return{Exprs: []Expr{Bin{"+", Var{r}, Num{1}}}})
+		out = []Stmt{
+			&Local{Names: []string{first}, Exprs: []Expr{Nil{}}},
+			&Local{Names: []string{nest}, Rec: true, Exprs: []Expr{nf([]string{d},
+				&Local{Names: []string{bf}, Exprs: []Expr{inner}},
+				&Call{Names: []string{co}, Fn: Var{"cocreate"}, Args: []Expr{Var{bf}}},
+				&If{Conds: []Expr{Bin{"==", Var{first}, Nil{}}}, Blocks: [][]Stmt{{&Assign{Targets: []Expr{Var{first}}, Exprs: []Expr{Var{co}}}}}},
+				&Call{Names: []string{ok2, v}, Fn: Var{"coresume"}, Args: []Expr{Var{co}}},
+				&Return{Exprs: []Expr{Var{v}}})}},
+			&Call{Names: []string{s}, Fn: Var{nest}, Args: []Expr{Num{float64(depth)}}},
+			&Call{Fn: Var{"emit"}, Args: []Expr{Str{"rep"}, Var{s}}},
 		}
 	default:
 		depth := []int{7, 9, 17, 33, 40}[g.t.Choose(5)]
